@@ -26,6 +26,8 @@ SeqSet(q) == {q[k] : k \in DOMAIN q}
 ObsNode(o) == [shares |-> [id \in G!IdSet |-> SeqSet(o.shares[ToString(id)])], keys |-> [id \in G!IdSet |-> o.keys[ToString(id)]],
                sigs |-> [r \in G!RoundIdx |-> {}], cur |-> 0, ptr |-> -1]
 ObsTabs(line) == [i \in Nodes |-> ObsNode(line.tabs[i + 1])]
+(* share / key rows that belong to no identity of the universe or to another keyper config index *)
+NoAlien(line) == \A i \in Nodes : line.tabs[i + 1].alien = 0
 ObsKs(e2, o, reg) == [e2 |-> e2, rows |-> SeqSet(o.rows), cms |-> SeqSet(o.cms), reg |-> reg]
 ObsReg(s) == St(s.synced, SeqSet(s.stored))
 ObsUni(u) == [kind2 |-> u.kind2, eon2 |-> u.eon2]
@@ -67,7 +69,7 @@ TNext ==
                               ELSE {})
                  /\ drift' = drift \cup (IF /\ line.e2 = st.ks[n].e2 /\ r.v = line.v /\ r.res = line.res /\ r.out = line.out
                                             /\ r.pub.prod = line.prod /\ r.ks.rows = kso.rows /\ r.ks.cms = kso.cms
-                                            /\ [st.nd EXCEPT ![n] = r.nd] = tabs /\ quiet
+                                            /\ [st.nd EXCEPT ![n] = r.nd] = tabs /\ quiet /\ NoAlien(line)
                                          THEN {} ELSE {l})
                  /\ st' = [st EXCEPT !.ks[n] = kso, !.nd = tabs, !.g[n] = g2, !.net = @ (+) PacketsOf(n, line.prod, 1)]
          [] line.k = "eon" ->
@@ -94,7 +96,7 @@ TNext ==
                  /\ st' = [st EXCEPT !.ks[n].reg = states[Len(states)]]
          [] line.k = "end" ->
               /\ info' = info \cup Tag(IF line.pending = 0 THEN P4EndFailed(ObsTabs(line)) ELSE {"P4_AllHaveKeys"})
-              /\ drift' = drift \cup (IF st.net = EmptyBag /\ ObsTabs(line) = st.nd THEN {} ELSE {l})
+              /\ drift' = drift \cup (IF st.net = EmptyBag /\ ObsTabs(line) = st.nd /\ NoAlien(line) THEN {} ELSE {l})
               /\ UNCHANGED <<st, viol>>
          [] OTHER ->     \* dlv | dup | drop of the simulated network
               LET pk == [m |-> line.m, d |-> line.n]
@@ -102,15 +104,15 @@ TNext ==
                   quiet == line.panic = "" /\ line.hang = "" IN
               /\ viol' = viol \cup Tag((IF line.panic = "" THEN {} ELSE {"C05_NoPanic"}) \cup (IF line.hang = "" THEN {} ELSE {"C05_NoHang"}))
               /\ CASE line.k = "dlv" ->
-                        IF line.missing
-                        THEN /\ drift' = drift \cup {l}
+                        IF line.missing \/ line.m.r \notin DOMAIN Lists \/ line.m.t \notin {"shares", "keys"}
+                        THEN /\ drift' = drift \cup {l}      \* also: a message that carries none of the universe's identity lists
                              /\ info' = info
                              /\ st' = [st EXCEPT !.nd = tabs]
                         ELSE LET j == line.n
                                  r == NetDeliver(st.nd[j], j, line.m) IN
                              /\ info' = info \cup (IF quiet THEN Tag(P4StepFailed(line.verdict, line.prod, tabs)) ELSE {})
                              /\ drift' = drift \cup (IF /\ pk \in DOMAIN st.net /\ r.v = line.verdict /\ [st.nd EXCEPT ![j] = r.nd] = tabs
-                                                        /\ r.pub.prod = line.prod /\ line.err = "" /\ quiet THEN {} ELSE {l})
+                                                        /\ r.pub.prod = line.prod /\ line.err = "" /\ quiet /\ NoAlien(line) THEN {} ELSE {l})
                              /\ st' = [st EXCEPT !.nd = tabs,
                                                  !.net = (IF pk \in DOMAIN @ THEN @ (-) SetToBag({pk}) ELSE @) (+) PacketsOf(j, line.prod, 1)]
                    [] line.k = "dup" ->
